@@ -27,7 +27,10 @@ RULE = (
     "equals the control flow of the listing with A renamed to B. Invalid "
     "requests (foreign module, no referent, retargeted twice, control flow "
     "into data) must be refused. non-trivial = >=1 retargeted use compared; "
-    "distinct = (abi, pie, A kind, B kind, use kinds)."
+    "distinct = (abi, pie, A kind, B kind, use kinds). A quarter of the "
+    "contexts also insert at a block start, a quarter also delete "
+    "(instructions in front of a block's last one, or a whole code block "
+    "that code follows: uses of A disappear or move, labels A/B slide)."
 )
 ASSUMPTIONS = [
     "conversion table transcribed from the ABI rule docstrings of abi.py (x86-64 ELF PIE: GOT|PCREL for code refs, PLT for control flow; non-PIE: PLT; ARM64 PIE: GOT (+LO12))",
@@ -129,11 +132,37 @@ def gen_case(rng, tier, index):
     case["attr_seed"] = rng.randrange(1 << 30)
     case["invalid"] = rng.choice([None, None, None, "foreign", "noreferent",
                                   "twice"])
-    if rng.random() < 0.25 and g.code_blocks:
+    r = rng.random()
+    if r < 0.25 and g.code_blocks:
         blk = rng.choice([b for b in g.code_blocks if b["items"]])
         case["edits"] = [{"op": "ins", "b": blk["id"], "i": 0,
                           "p": {"lines": [{"k": "mark",
                                            "imm": g.mark(0)}]}}]
+    elif r < 0.5:
+        # deletions in the same context: instructions in front of a block's
+        # last one (uses of A among them disappear, the others move), or a
+        # whole code block that code follows (its labels - A or B among
+        # them - slide)
+        seq = [b for b in g.all_blocks]
+        for _ in range(rng.choice([1, 1, 2])):
+            cands = [b for b in g.code_blocks if len(b["items"]) >= 2 and
+                     not any(e["b"] == b["id"] for e in case["edits"])]
+            whole = [b for k, b in enumerate(seq[:-1])
+                     if b["code"] and b["items"] and seq[k + 1]["code"] and
+                     seq[k + 1]["items"] and
+                     not any(e["b"] == b["id"] for e in case["edits"]) and
+                     not any(b["id"] in f["entries"]
+                             for f in case["funcs"])]
+            if whole and rng.random() < 0.3:
+                b = rng.choice(whole)
+                case["edits"].append({"op": "del", "b": b["id"], "i": 0,
+                                      "n": len(b["items"]), "proxy": False})
+            elif cands:
+                b = rng.choice(cands)
+                i = rng.randrange(0, len(b["items"]) - 1)
+                n = rng.randrange(1, len(b["items"]) - i)
+                case["edits"].append({"op": "del", "b": b["id"], "i": i,
+                                      "n": n, "proxy": False})
     return case
 
 
@@ -143,6 +172,8 @@ def run_case(case):
     ctr = {"retargeted_uses_compared": 0, "untouched_uses_compared": 0,
            "edges_compared": 0, "invalid_requests": 0}
     isa, fmt, pie = case["isa"], case["fmt"], case.get("pie", False)
+    if any(e["op"] == "del" for e in case["edits"]):
+        ctr["contexts_that_also_delete"] = 1
     arng = random.Random(case["attr_seed"])
     bu, lst0 = irbuild.build(case, random.Random("uuid:0"))
     bu.item_offsets = {bid: lst0.item_offsets(bid) for bid in lst0.block_info}
@@ -176,6 +207,7 @@ def run_case(case):
     NULL = __import__("uuid").UUID(int=0)
     cfi = m.aux_data["cfiDirectives"].data
     cfi_in = []
+    key_label = {}
     for lab, d, symname in case["cfi"]:
         blk = bu.symbols[lab].referent
         key = gtirb.Offset(blk, 0)
@@ -183,6 +215,7 @@ def run_case(case):
             cfi[key] = [(".cfi_startproc", [], NULL)]
         cfi[key].append((d, [0x1b], bu.symbols[symname]))
         cfi_in.append((key, len(cfi[key]) - 1, d, symname))
+        key_label[id(key)] = lab
     fwd = m.aux_data["symbolForwarding"].data
     fwd_in = {}
     for k, v in case["fwd"]:
@@ -236,9 +269,10 @@ def run_case(case):
                  for blk in iv["blocks"] if not blk["code"]
                  for l in blk["labels"] + blk["elabels"]}
     cf_into_data = False
-    for si, ii, t in lst0.all_tokens():
-        if t.t == "I" and t.target in ren and access_of(t) == "cf" and \
-                ren[t.target] in data_syms:
+    for si, ii, t in rewrite.expected(case).all_tokens():
+        # (instructions the same context deletes no longer count)
+        if t.t == "I" and t.patch is None and t.target in ren and \
+                access_of(t) == "cf" and ren[t.target] in data_syms:
             cf_into_data = True
     exc = None
     try:
@@ -321,14 +355,31 @@ def run_case(case):
             else "untouched_uses_compared"] += 1
         if symname in ren:
             kinds.add("cfi")
-        if ds is None or idx >= len(ds):
-            # block may have been split by the optional insertion at offset 0
-            found = [x for dl in cfi.values() for x in dl
-                     if x[0] == d and isinstance(x[2], gtirb.Symbol)
-                     and x[2].name == want]
-            if not found:
+        if ds is None or idx >= len(ds) or case["edits"]:
+            # the block may have been split by the insertion at offset 0, or
+            # deleted (its directives move on): look for the directive
+            # anywhere
+            every = [x for dl in cfi.values() for x in dl
+                     if x[0] == d and isinstance(x[2], gtirb.Symbol)]
+            blk_deleted = any(
+                e["op"] == "del" and e["i"] == 0 and
+                e["n"] == len(lst0.block_info[e["b"]]["blk"]["items"]) and
+                lab in lst0.block_info[e["b"]]["blk"]["labels"]
+                for e in case["edits"]
+                for lab in [key_label[id(key)]])
+            if not any(x[2].name == want for x in every) and \
+                    not blk_deleted:
                 viol.append({"key": "retarget:cfi-directive-lost",
                              "msg": d})
+            want_all = sorted(ren.get(s2, s2)
+                              for _, _, d2, s2 in cfi_in if d2 == d)
+            got_all = sorted(x[2].name for x in every)
+            if got_all != want_all and not blk_deleted and not any(
+                    e["op"] == "del" and e["i"] == 0 and e["n"] == len(
+                        lst0.block_info[e["b"]]["blk"]["items"])
+                    for e in case["edits"]):
+                viol.append({"key": "retarget:cfi-directive-symbol",
+                             "msg": f"{d}: {got_all} != {want_all}"})
             continue
         if ds[idx][2] is not bu.symbols[want] or ds[idx][1] != [0x1b]:
             viol.append({"key": "retarget:cfi-directive-symbol",
